@@ -60,7 +60,6 @@ func cloneTxnJSON(js []byte) *transaction.Transaction {
 	return t
 }
 
-
 // ---------------------------------------------------------------------------------------------------
 // block path: the same transaction as it appears inside a generated block (output, output hash, status set by the
 // generator) and as the verifying miners treat it: block JSON -> ComputeProperties -> miner.Chain.ValidateTransactions
